@@ -63,7 +63,11 @@ class Agg:
     def __init__(self):
         self.obs = {}
 
-    def ob(self, name, ok, detail, clause=CL):
+    def ob(self, name, ok, detail, clause=CL, case=None):
+        """Passing instances are aggregated under `name`; a failing instance with a `case` key becomes its
+        own obligation `name[case]` so that known findings can name exactly the failing input."""
+        if not ok and case is not None:
+            name = f"{name}[{case}]"
         o = self.obs.setdefault(name, {"status": "proved", "instances": 0, "clause": clause, "ms": 0.0,
                                        "backend": "evaluation", "model": None, "detail": "", "path": None})
         o["instances"] += 1
